@@ -168,3 +168,24 @@ PROPS['C07'] = dict(
                 split={'zmask': R(32)}, tiers=[T], witnesses=['done'], max_loop=20000)
            for l in (1, 2, 5) for i in (0, 1, 2, 3, 4, 5) if not (l == 1 and i in (0, 1, 3))],
 )
+
+_EIG = {'SelfAdjointEigenSolver.*7computeI': 'stub_eig_compute'}
+PROPS['C03'] = dict(
+    claim='HamiltonianPart::prepare is executed symbolically on the real pipeline (symbolic amplitudes) against an independent '
+          'Jordan-Wigner reference; HamiltonianPart::compute is decided for the 1x1 path and, for n x n blocks, against the CONTRACT '
+          'of Eigen::SelfAdjointEigenSolver (the iterative floating-point solver itself is not encodable and is overridden by a stub '
+          'returning arbitrary symbolic eigen-data); Hamiltonian::computeGroundEnergy / getEigenValues / getEigenValue are decided for '
+          'arbitrary symbolic eigenvalues.',
+    bounds={Q: 'Hubbard atom, spinless dimer (blocks 1,2,1 and one block of 4), Hubbard dimer (9 blocks) ; all zero patterns of 3 amplitudes',
+            T: 'same'},
+    assumptions=['Eigen::SelfAdjointEigenSolver returns (E,U) with H U = U E, U^T U = 1 (ASSUMED, not checked: not encodable)',
+                 'every amplitude is exactly 0 or 1e-3 <= |a| <= 1e3', 'double read as exact real'],
+    outside=['correctness and orthonormality of the eigen-solver output (the core numerical step of C03)', 'complex build'],
+    units=[dict(name='hpart_l%d' % l, harness='h_hpart', defs=['LAYOUT=%d' % l], split={'zmask': R(8)}, overrides=_EIG,
+                witnesses=['done', '1x1_block'] + (['nxn_block'] if l else []), max_loop=20000, validate=[{'zmask': 0}])
+           for l in (0, 1, 2)] +
+          [dict(name='hpart_l1_oneblock', harness='h_hpart', defs=['LAYOUT=1', 'IGNORE_SYMM=true'], split={'zmask': R(8)}, overrides=_EIG,
+                witnesses=['done', 'nxn_block'], max_loop=20000)] +
+          [dict(name='hamiltonian_m%d' % m, harness='h_hamiltonian', defs=['MODEL=%d' % m], witnesses=['done'], max_loop=20000,
+                validate=[{}]) for m in (0, 1, 2, 3)],
+)
